@@ -134,7 +134,8 @@ def parentless_nodes_rule(ctx, hugr, file, rule="C04.R2") -> None:
                 continue
             par = kwarg(c, "parent", 1)
             n += 1
-            bad = par is None or (isinstance(par, ast.Constant) and par.value is None) or (isinstance(par, ast.Name) and par.id in optional)
+            from .c01 import _rebound_before
+            bad = par is None or (isinstance(par, ast.Constant) and par.value is None) or (isinstance(par, ast.Name) and par.id in optional and not _rebound_before(cf, c, par.id))
             ctx.check(not bad, rule, f"Hugr.{name}: new node gets a parent", file, getattr(c, "lineno", m.lineno),
                       f"{name} hands `{u(par) if par is not None else 'nothing'}` to _add_node as the parent: when the caller leaves it out the node is created "
                       "detached (no parent, in nobody's child list) instead of under the root, which add_node guarantees by defaulting first", c,
